@@ -140,6 +140,8 @@ def gen_db(name, cfg, rng, profile, scale=1):
         lens = [rng.randint(1, 5) for _ in range(rng.randint(1, 4))]
     elif profile == "many_keywords":
         lens = [rng.randint(1, 4) for _ in range(150)]
+    elif profile == "long_list_2byte":
+        lens = [rng.randint(560, 640)] + [rng.randint(1, 3) for _ in range(3)]
     elif profile == "long_list":
         lens = [rng.randint(290, 330)] + [rng.randint(1, 3) for _ in range(3)]
     else:
